@@ -36,6 +36,8 @@ func (g *Global) staticObligations(want map[string]bool) []*Obligation {
 			out = append(out, g.readAfter(d)...)
 		case "covers":
 			out = append(out, g.coversFields(d)...)
+		case "globals_readonly":
+			out = append(out, g.globalsReadonly(d)...)
 		}
 	}
 	return out
@@ -346,4 +348,99 @@ func (g *Global) coversFields(d PkgDecl) []*Obligation {
 		return []*Obligation{mk("fields not covered by the specification: " + strings.Join(missing, ", "))}
 	}
 	return []*Obligation{mk("ok")}
+}
+
+// globals_readonly [C03,C05] except a b c
+//
+// No function of the package (package initialisation aside) writes a package-level variable:
+// neither by a store whose address is rooted at the variable, nor by handing a pointer to or a
+// slice of it to a callee. Such a variable is state shared by all threads and all executions
+// (a scratch buffer, a cache): what one execution leaves there another one reads.
+func (g *Global) globalsReadonly(d PkgDecl) []*Obligation {
+	except := map[string]bool{}
+	fs := strings.Fields(d.Text)
+	for i, w := range fs {
+		if w == "except" {
+			for _, e := range fs[i+1:] {
+				except[strings.Trim(e, ",")] = true
+			}
+		}
+	}
+	short := d.Pkg[strings.LastIndex(d.Pkg, "/")+1:]
+	var bad []string
+	seen := map[string]bool{}
+	rootGlobal := func(v ssa.Value) *ssa.Global {
+		for depth := 0; depth < 16; depth++ {
+			switch x := v.(type) {
+			case *ssa.Global:
+				return x
+			case *ssa.FieldAddr:
+				v = x.X
+			case *ssa.IndexAddr:
+				v = x.X
+			case *ssa.Slice:
+				v = x.X
+			case *ssa.ChangeType:
+				v = x.X
+			case *ssa.Convert:
+				v = x.X
+			default:
+				return nil
+			}
+		}
+		return nil
+	}
+	var fns []*ssa.Function
+	for fn := range g.allFuncs {
+		if fn.Pkg == nil || fn.Pkg.Pkg.Path() != d.Pkg || fn.Blocks == nil {
+			continue
+		}
+		if fn.Name() == "init" || strings.HasPrefix(fn.Name(), "init#") || fn.Synthetic != "" {
+			continue
+		}
+		fns = append(fns, fn)
+	}
+	sort.Slice(fns, func(i, j int) bool { return fns[i].String() < fns[j].String() })
+	note := func(gl *ssa.Global, fn *ssa.Function, how string) {
+		if gl == nil || gl.Pkg == nil || gl.Pkg.Pkg.Path() != d.Pkg || except[gl.Name()] {
+			return
+		}
+		k := gl.Name() + " " + how + " in " + fn.Name()
+		if !seen[k] {
+			seen[k] = true
+			bad = append(bad, k)
+		}
+	}
+	for _, fn := range fns {
+		for _, b := range fn.Blocks {
+			for _, in := range b.Instrs {
+				switch in := in.(type) {
+				case *ssa.Store:
+					note(rootGlobal(in.Addr), fn, "stored to")
+				case ssa.CallInstruction:
+					for _, a := range in.Common().Args {
+						switch a.Type().Underlying().(type) {
+						case *types.Pointer, *types.Slice:
+							if gl := rootGlobal(a); gl != nil {
+								if _, isSlice := a.(*ssa.Slice); isSlice {
+									note(gl, fn, "sliced and passed to a callee")
+								} else if _, isG := a.(*ssa.Global); !isG {
+									note(gl, fn, "address passed to a callee")
+								} else if _, arr := gl.Type().Underlying().(*types.Pointer).Elem().Underlying().(*types.Array); arr {
+									note(gl, fn, "address passed to a callee")
+								}
+							}
+						}
+					}
+				}
+			}
+		}
+	}
+	st := "ok"
+	if len(bad) > 0 {
+		sort.Strings(bad)
+		st = "package-level state written at run time: " + strings.Join(bad, "; ")
+	}
+	return []*Obligation{{Name: short + "/globals_readonly", Fn: short, Kind: "globals_readonly", Props: d.Props, Backend: "static", Static: st, Pos: d.Pos,
+		Clause: "no function of " + d.Pkg + " writes a package-level variable"}}
 }
